@@ -84,6 +84,7 @@ fn main() {
             let code = replay(&args[2]);
             std::process::exit(code);
         }
+        "c15-batch" => c15::batch_main(args[2].parse().unwrap()),
         "c17-eval" => c17::eval_main(&args[2], args[3].parse().unwrap()),
         "list" => {
             for p in registry() {
